@@ -29,7 +29,8 @@ Definition vx (k : akind) : xc := xc_of (vanish_errno k).
 (* a process that is gone stays gone; one that is there may be gone after the next access *)
 Definition gs (g : bool) : list bool := if g then [true] else [false; true].
 Definition extras (o : oclass) : list xc :=
-  match o with Strict | DirSurvives => [] | MayVanish => [XFnf; XEsrch] | MayVanishOrInval => [XFnf; XEsrch; XOsOther] end.
+  match o with Strict | DirSurvives => [] | MayEnoent => [XFnf] | MayVanish => [XFnf; XEsrch]
+  | MayVanishOrInval => [XFnf; XEsrch; XOsOther] end.
 Definition live_sigs (o : oclass) : list asig := ANormal :: ARaise XPerm :: map ARaise (extras o).
 (* whose disappearance makes the access fail *)
 Inductive fail_by := ByG | ByO | ByNone.
